@@ -231,8 +231,17 @@ macro_rules! runner {
                 .actual_subscribe(gp);
               <$boxsub>::new(u)
             } else if self.env.prog[root - 1].op == "publish" {
-              let p: Probe<$react> = Probe::new(&sh, None);
               let subj = self.publish_of(root).1.clone();
+              let react: Option<$react> = if s.b == 3 {
+                let (sj, sh2) = (subj.clone(), sh.clone());
+                Some(Box::new(move |_v: &Val| {
+                  let p: Probe<$react> = Probe::new(&sh2, None);
+                  let _ = sj.clone().actual_subscribe(p);
+                }))
+              } else {
+                None
+              };
+              let p: Probe<$react> = Probe::new(&sh, react);
               <$boxsub>::new(subj.actual_subscribe(p))
             } else {
               let pipeline = self.built(root);
@@ -253,6 +262,16 @@ macro_rules! runner {
                   Some(Box::new(move |_v: &Val| {
                     let p: Probe<$react> = Probe::new(&sh2, None);
                     let _ = pl.clone().actual_subscribe(p);
+                  }))
+                }
+                4 => {
+                  // peek() the BehaviorSubject this pipeline starts from, from inside the callback
+                  let a = self.env.prog[root - 1].a;
+                  let beh = self.env.behaviors[(a - 1) as usize].clone();
+                  let sh2 = sh.clone();
+                  let pid = sh.nprobe.load(std::sync::atomic::Ordering::SeqCst) as i64 + 1;
+                  Some(Box::new(move |_v: &Val| {
+                    sh2.record(pid, 'P', Behavior::<Val, Val>::peek(&beh));
                   }))
                 }
                 _ => None,
